@@ -727,6 +727,27 @@ impl Ast {
         self.has_backref() && self.has_nullable_loop()
     }
 
+    /// As `backref_in_disputed_position`, but a back-reference under an exact count
+    /// (`\\1{2}`: two copies, nothing to dispute) does not count as a loop over a
+    /// possibly-empty body.
+    pub fn backref_in_disputed_position_strict(&self) -> bool {
+        fn nl(a: &Ast) -> bool {
+            match a {
+                Ast::Seq(v) | Ast::Alt(v) => v.iter().any(nl),
+                Ast::Rep(b, min, max, _) => {
+                    if matches!(**b, Ast::BackRef(_)) && Some(*min) == *max {
+                        false
+                    } else {
+                        b.may_be_empty() || nl(b)
+                    }
+                }
+                Ast::Group(_, b) | Ast::NonCap(b) => nl(b),
+                _ => false,
+            }
+        }
+        self.has_backref() && nl(self)
+    }
+
     /// Maximum nesting depth of quantifiers.
     pub fn quant_depth(&self) -> usize {
         match self {
